@@ -624,8 +624,24 @@ func ruleCursorReport(c *Ctx) {
 		})
 	}
 	c.check(len(writers[iters]) == 1 && writers[iters]["Step"], "numberIters-writer", 0, "only scanWriter.Step writes numberIters", fmt.Sprintf("numberIters is written by %v", sortedKeys(writers[iters])))
-	c.check(len(writers[hit]) == 1 && writers[hit]["pushObject"], "hitLimit-writer", 0, "only pushObject writes hitLimit", fmt.Sprintf("hitLimit is written by %v", sortedKeys(writers[hit])))
-	c.check(len(writers[items]) == 1 && writers[items]["pushObject"], "numberItems-writer", 0, "only pushObject writes numberItems", fmt.Sprintf("numberItems is written by %v", sortedKeys(writers[items])))
+	// pushObject and the helpers only it calls are one unit
+	pushUnit := map[string]bool{"pushObject": true}
+	for f := range c.calledOnlyFrom("pushObject") {
+		pushUnit[f.Name()] = true
+	}
+	onlyPush := func(m map[string]bool) bool {
+		if len(m) == 0 {
+			return false
+		}
+		for w := range m {
+			if !pushUnit[w] {
+				return false
+			}
+		}
+		return true
+	}
+	c.check(onlyPush(writers[hit]), "hitLimit-writer", 0, "only pushObject (and helpers only it calls) writes hitLimit", fmt.Sprintf("hitLimit is written by %v", sortedKeys(writers[hit])))
+	c.check(onlyPush(writers[items]), "numberItems-writer", 0, "only pushObject (and helpers only it calls) writes numberItems", fmt.Sprintf("numberItems is written by %v", sortedKeys(writers[items])))
 	// pushObject: hitLimit = true only under numberItems == limit, and that block returns false
 	po := c.Func(pk, "scanWriter", "pushObject")
 	wf := c.Func(pk, "scanWriter", "writeFoot")
@@ -639,7 +655,48 @@ func ruleCursorReport(c *Ctx) {
 		as, ok := x.(*ast.AssignStmt)
 		return ok && len(as.Lhs) == 1 && selField(info, as.Lhs[0]) == hit
 	})
-	okStore := len(stores) > 0
+	// a helper of pushObject that reports "the limit was reached" (limitFlagHelpers): its stores count when
+	// it answers true after them and pushObject stops wherever it answered true
+	lfh := limitFlagHelpers(c, po, items, limit)
+	nHelperStores := 0
+	helperOK := true
+	for h, hfi := range lfh {
+		hinfo := hfi.Info()
+		hfg := newFlowGraph(hinfo, hfi.Decl.Body)
+		for _, st := range hfg.Find(func(x ast.Node) bool {
+			as, ok := x.(*ast.AssignStmt)
+			return ok && len(as.Lhs) == 1 && selField(hinfo, as.Lhs[0]) == hit
+		}) {
+			nHelperStores++
+			g := false
+			for _, f := range hfg.DominatingFacts(st) {
+				be, ok := ast.Unparen(f.E).(*ast.BinaryExpr)
+				if ok && (!f.Neg && be.Op == token.EQL || f.Neg && be.Op == token.NEQ) && (selField(hinfo, be.X) == items && selField(hinfo, be.Y) == limit || selField(hinfo, be.X) == limit && selField(hinfo, be.Y) == items) {
+					g = true
+				}
+			}
+			answersFalse, _ := hfg.Reach(PathQuery{From: st, Target: func(l Loc) bool {
+				r, ok := l.Node.(*ast.ReturnStmt)
+				return ok && (len(r.Results) != 1 || boolConst(hinfo, r.Results[0]) != '1')
+			}})
+			if !g || answersFalse {
+				helperOK = false
+			}
+		}
+		// in pushObject: no return that continues the iteration is dominated by "the helper answered true"
+		for _, r := range fg.Returns() {
+			rs := r.Node.(*ast.ReturnStmt)
+			if len(rs.Results) == 0 || boolConst(info, rs.Results[0]) == '0' {
+				continue
+			}
+			for _, f := range fg.DominatingFacts(r) {
+				if call, ok := ast.Unparen(f.E).(*ast.CallExpr); ok && !f.Neg && callee(info, call) == h {
+					helperOK = false
+				}
+			}
+		}
+	}
+	okStore := len(stores)+nHelperStores > 0 && helperOK
 	for _, s := range stores {
 		g := false
 		for _, f := range fg.DominatingFacts(s) {
@@ -951,4 +1008,58 @@ func ruleOneScanPerCursor(c *Ctx) {
 		c.und("sites", 0, "no call hands a value to an iterator as collection.Cursor")
 	}
 	c.stat("cursor_iteration_sites", n)
+}
+
+// limitFlagHelpers: the scanWriter methods that only pushObject calls and that return one boolean which is the
+// constant true only under numberItems == limit (and the constant false otherwise): "the limit was reached".
+func limitFlagHelpers(c *Ctx, po *FuncInfo, items, limit *types.Var) map[*types.Func]*FuncInfo {
+	out := map[*types.Func]*FuncInfo{}
+	for f := range c.calledOnlyFrom("pushObject") {
+		if f == po.Obj {
+			continue
+		}
+		fi := c.FuncOf(f)
+		if fi == nil || fi.Decl.Body == nil {
+			continue
+		}
+		sig := f.Type().(*types.Signature)
+		if sig.Results().Len() != 1 {
+			continue
+		}
+		if b, ok := sig.Results().At(0).Type().Underlying().(*types.Basic); !ok || b.Kind() != types.Bool {
+			continue
+		}
+		info := fi.Info()
+		fg := newFlowGraph(info, fi.Decl.Body)
+		ok := true
+		nTrue := 0
+		for _, r := range fg.Returns() {
+			rs := r.Node.(*ast.ReturnStmt)
+			if len(rs.Results) != 1 {
+				ok = false
+				continue
+			}
+			switch boolConst(info, rs.Results[0]) {
+			case '0':
+			case '1':
+				nTrue++
+				at := false
+				for _, ft := range fg.DominatingFacts(r) {
+					be, isB := ast.Unparen(ft.E).(*ast.BinaryExpr)
+					if isB && (!ft.Neg && be.Op == token.EQL || ft.Neg && be.Op == token.NEQ) && (selField(info, be.X) == items && selField(info, be.Y) == limit || selField(info, be.X) == limit && selField(info, be.Y) == items) {
+						at = true
+					}
+				}
+				if !at {
+					ok = false
+				}
+			default:
+				ok = false
+			}
+		}
+		if ok && nTrue > 0 {
+			out[f] = fi
+		}
+	}
+	return out
 }
